@@ -1,6 +1,6 @@
-Gen/GenArgs.vo Gen/GenArgs.glob Gen/GenArgs.v.beautified Gen/GenArgs.required_vo: Gen/GenArgs.v Lib/NumOps.vo
-Gen/GenArgs.vio: Gen/GenArgs.v Lib/NumOps.vio
-Gen/GenArgs.vos Gen/GenArgs.vok Gen/GenArgs.required_vos: Gen/GenArgs.v Lib/NumOps.vos
+Gen/GenArgs.vo Gen/GenArgs.glob Gen/GenArgs.v.beautified Gen/GenArgs.required_vo: Gen/GenArgs.v 
+Gen/GenArgs.vio: Gen/GenArgs.v 
+Gen/GenArgs.vos Gen/GenArgs.vok Gen/GenArgs.required_vos: Gen/GenArgs.v 
 Gen/GenAsync.vo Gen/GenAsync.glob Gen/GenAsync.v.beautified Gen/GenAsync.required_vo: Gen/GenAsync.v Lib/NumOps.vo
 Gen/GenAsync.vio: Gen/GenAsync.v Lib/NumOps.vio
 Gen/GenAsync.vos Gen/GenAsync.vok Gen/GenAsync.required_vos: Gen/GenAsync.v Lib/NumOps.vos
